@@ -18,7 +18,7 @@ ASSUMPTIONS = ["the amount of an EOM drift correction is decided by C15; here it
                "Ramsey tolerance 1e-3 (emulator 1-ns discretisation observed <= 3e-5)"]
 TIERS = {"quick": dict(cases=1000, shards=8, case_timeout=180, shard_timeout=900),
          "thorough": dict(cases=16000, shards=16, case_timeout=180, shard_timeout=3000)}
-FLOORS = {"quick": {"refs_compared": 20000, "pulse_phases_checked": 2500, "explicit_shifts": 1500, "ramsey_checked": 40, "mappable_builds_checked": 80, "ramsey_xy_masked_checked": 10},
+FLOORS = {"quick": {"refs_compared": 20000, "pulse_phases_checked": 2500, "explicit_shifts": 1500, "ramsey_checked": 40, "mappable_builds_checked": 80, "ramsey_xy_masked_checked": 10, "ramsey_detuned_checked": 10},
           "thorough": {"refs_compared": 300000}}
 WEIGHTS = {"phase_shift": 6, "phase_shift_index": 2, "add": 10, "add_eom_pulse": 7, "target": 3, "declare_channel": 3,
            "sample": 0, "str": 0, "to_abstract_repr": 0, "build_copy": 0, "queries": 0, "measure": 0.02,
@@ -99,6 +99,49 @@ def ramsey_xy_masked(ctx, rng, k: int) -> None:
                       case={"ramsey_xy_masked": dict(phi0=phi0, phi=phi, T=T)})
 
 
+def ramsey_detuned(ctx, rng, k: int) -> None:
+    """pi/2 pulse - free precession under a detuning (a zero-amplitude detuned pulse) - phase_shift(phi) - pi/2 pulse:
+    the excitation depends on the *sign* with which phi enters relative to the detuning, which the plain Ramsey
+    fringe cos^2(phi/2) does not. Expected value: exact propagation of the documented Hamiltonian (vmon.ref.ham)."""
+    import pulser
+    from pulser_simulation import QutipEmulator
+
+    from vmon.ref import ham as refham
+
+    kind = ["rydberg_global", "raman_global", "mw_global", "rydberg_local"][k % 4]
+    phi = [0.7, -1.1, 2.0, 4.0, -2.6][(k // 4) % 5]
+    delta = [3.0, -2.0, 5.5][(k // 20) % 3]
+    T, W = 100, [60, 148][(k // 60) % 2]
+    basis = {"rydberg_global": "ground-rydberg", "raman_global": "digital", "mw_global": "XY", "rydberg_local": "ground-rydberg"}[kind]
+    reg = pulser.Register({"a": (0.0, 0.0)})
+    seq = pulser.Sequence(reg, pulser.MockDevice)
+    seq.declare_channel("ch", kind, **({"initial_target": "a"} if "local" in kind else {}))
+    omega = (math.pi / 2) / (T * 1e-3)
+    half = pulser.Pulse.ConstantPulse(T, omega, 0.0, 0.0)
+    seq.add(half, "ch")
+    seq.add(pulser.Pulse.ConstantPulse(W, 0.0, delta, 0.0), "ch")
+    seq.phase_shift(phi, "a", basis=basis)
+    seq.add(half, "ch")
+    psi = np.asarray(QutipEmulator.from_sequence(seq).run().get_final_state().full()).ravel()
+    states = refham.states_in_use({basis}, basis == "XY")
+    ref = np.zeros(len(states), dtype=complex)
+    ref[states.index(refham.TRANSITION[basis][0] if False else {"ground-rydberg": "g", "digital": "g", "XY": "u"}[basis])] = 1.0
+    coords = [np.zeros(2)]
+    for dur, om, de, ph in ((T, omega, 0.0, 0.0), (W, 0.0, delta, 0.0), (T, omega, 0.0, phi)):
+        H = refham.hamiltonian(states, coords, {(0, basis): (0.5 * om * np.exp(-1j * ph), de)}, c6_coeff=None,
+                               c3_coeff=None if basis != "XY" else 0.0, field=None if basis != "XY" else np.array([0.0, 0.0, 30.0]))
+        w, V = np.linalg.eigh(H)
+        ref = V @ (np.exp(-1j * w * dur * 1e-3) * (V.conj().T @ ref))
+    ctx.count("ramsey_checked")
+    ctx.count("ramsey_detuned_checked")
+    ctx.mark_nontrivial(("ramsey-detuned", kind, phi, delta, W))
+    pe, pr = np.abs(psi) ** 2, np.abs(ref) ** 2
+    if np.max(np.abs(pe - pr)) > 2e-3:
+        ctx.violation("ramsey", f"{kind}: pi/2 - {W} ns at detuning {delta} - phase_shift({phi}) - pi/2 gives populations "
+                      f"{np.round(pe, 5)} (states {states}); the documented Hamiltonian gives {np.round(pr, 5)}",
+                      f"ramsey:detuned-wait:{basis}", case={"ramsey_detuned": dict(kind=kind, phi=phi, delta=delta, wait=W)})
+
+
 def run_case(ctx, idx, rng, tier):
     stride = 8 if tier == "quick" else 4
     if idx % stride == 0:
@@ -106,6 +149,10 @@ def run_case(ctx, idx, rng, tier):
         if k % 4 == 3:
             ramsey_xy_masked(ctx, rng, k // 4)
             ctx.case = {"ramsey_xy_masked_index": k // 4}
+            return
+        if k % 4 == 1:
+            ramsey_detuned(ctx, rng, k // 4)
+            ctx.case = {"ramsey_detuned_index": k // 4}
             return
         ramsey(ctx, rng, k)
         ctx.case = {"ramsey_index": idx // stride}
@@ -120,6 +167,9 @@ def run_case(ctx, idx, rng, tier):
     mon = PhaseMonitor(ctx)
     r = prog.Runner(ctx, dev, reg, [mon])
     g = gen.ProgGen(rng, dev, reg, r.chspecs, weights=WEIGHTS, same_phase=0.2)
+    # every way of writing a pulse carries a post-phase-shift: the plain constructor and the arbitrary-phase one
+    g.pulse_fn = lambda rr, c, ph: gen.gen_pulse(rr, c, phase=ph, pps_p=0.35, arb=0.2, big=False)
+    g.motifs["equalize"] = 0.35
     for _ in range(rng.randint(8, 40)):
         op = g.next_op()
         ev = r.step(op)
